@@ -447,7 +447,7 @@ def run(tier):
                 want = want[:1] if kind == 'single' else want
                 if numpy.shape(out) != shp:
                     fail('shape', f'geodetic_to_ecf: input shape {shp} ({kind}) gives output shape {numpy.shape(out)}', case)
-                elif flat(out).shape != want.shape or (want.size and not numpy.abs(flat(out) - want).max() <= 1e-9):
+                elif flat(out).shape != want.shape or (want.size and not numpy.abs(flat(out) - want).max() <= 1e-9 + 8 * 2.3e-16 * float(numpy.abs(want).max())):
                     fail('ordering-shape', f'geodetic_to_ecf with shape {kind} / ordering {order} differs from the flat latlong call', case)
                 if keep is not None and not numpy.array_equal(keep, numpy.asarray(arg), equal_nan=True):
                     fail('mutates-input', f'geodetic_to_ecf modified its argument ({kind})', case)
@@ -641,7 +641,7 @@ def run(tier):
                         out = fn(arr, list(orp) if gi % 2 else orp, absolute_coords=absolute)
                         if out.shape != arr.shape:
                             fail('shape', f'{fn.__name__}: input shape {arr.shape} gives output shape {out.shape}', case)
-                        elif not float(numpy.abs(out.reshape((-1, 3)) - one).max()) <= 1e-9:
+                        elif not float(numpy.abs(out.reshape((-1, 3)) - one).max()) <= 1e-9 + 8 * 2.3e-16 * float(numpy.abs(one).max()):
                             fail('ordering-shape', f'{fn.__name__} on shape {arr.shape} differs from the row-by-row calls', case)
                         if not numpy.array_equal(keep, arr):
                             fail('mutates-input', f'{fn.__name__} modified its argument', case)
